@@ -28,12 +28,12 @@ RULE = (
 )
 ASSUMPTIONS = [
     "premise enforced by construction: |difference| <= 2.8 < pi along every edge the algorithm uses (mask-internal 4-neighbour pairs; seam pairs too when wrap_around=True); nothing is assumed across region boundaries or diagonal contacts",
-    "inputs are float32 tensors (the code accumulates in float32); the constancy/integrality bound is max(1e-4, 256*eps32*amplitude) rad with amplitude = max(2pi, max|phi|, max|out|); residuals are recorded as a fraction of that bound (worst measured fraction is in worst_residuals: >= 100x head-room), and the bound is orders of magnitude below the 2pi of any mis-assigned wrap",
+    "inputs are float32 tensors (the code accumulates in float32); the constancy/integrality bound is max(1e-4, 512*eps32*amplitude) rad with amplitude = max(2pi, max|phi|, max|out|); residuals are recorded as a fraction of that bound (worst measured fraction is in worst_residuals: >= 100x head-room), and the bound is orders of magnitude below the 2pi of any mis-assigned wrap",
     "values outside the mask are arbitrary finite numbers and are not judged; NaN/inf inputs are outside the domain",
     "the Poisson method is outside the exactness claim: executed and recorded (deviation from the generating field), not judged",
 ]
 BUDGET = {"quick": {"soft_s": 150}, "thorough": {"soft_s": 900}}
-MIN_EVALUATIONS = {"quick": 1000, "thorough": 12000}
+MIN_EVALUATIONS = {"quick": 2000, "thorough": 25000}
 REQUIRED_COUNTERS = ["eval:not_constant_on_region", "eval:non_integer_multiple", "eval:unwrapped_input_changed", "eval:bf_not_constant_on_region"]
 
 FAMILIES = ["ramp", "quadratic", "bumps", "bandlimited", "sines"]
@@ -52,7 +52,7 @@ def plan(tier, seed):
     def size():
         return SIZES[int(rng.choice(4, p=[0.15, 0.35, 0.35, 0.15]))]
 
-    reps = 5 if quick else 60
+    reps = 10 if quick else 120
     for fam, mask, wrap in itertools.product(FAMILIES, MASKS, [True, False]):
         if wrap and mask == "none" and fam not in PERIODIC:
             continue  # the seam edges would be the only large differences: scaled to a trivial field
@@ -269,7 +269,7 @@ def _scene(rng, spec, H=None, W=None, mask=None, periodic=None):
         periodic = bool(spec["wrap"])
     phi = _field(rng, spec["family"], H, W)
     D = max_edge_difference(phi, mask, periodic)
-    if D > 0:
+    if D > 1e-6 * float(np.max(np.abs(phi))):  # (a field that is constant along the used edges up to rounding stays as it is)
         phi = phi * (spec["target"] / D)
     lab, n = label_regions(mask, periodic)
     # nothing is promised across region boundaries: give every region its own arbitrary offset
@@ -295,7 +295,7 @@ def _outside(rng, arr, mask, mode):
 
 def _bound(*arrays):
     amp = max([2 * np.pi] + [float(np.max(np.abs(a))) for a in arrays if np.size(a)])
-    return max(1e-4, 256 * EPS32 * amp)
+    return max(1e-4, 512 * EPS32 * amp)
 
 
 def _size_class(H, W):
